@@ -106,7 +106,9 @@ func (it *Iterator) Seek(target []byte) bool {
 
 	// Find the block that might contain the key
 	// The index contains the first key of each block
-	if !it.indexIterator.Seek(target) {
+	// (the last block whose first key is <= target, not the first one whose
+	// first key is >= target: that one starts after the key we look for)
+	if !it.indexIterator.SeekFloor(target) {
 		// If seeking in the index fails, try the last block
 		it.indexIterator.SeekToLast()
 		if !it.indexIterator.Valid() {
